@@ -105,7 +105,7 @@ mut('m10-decrement-epoch-unpinned', ['C02'], U, '''        let guard_owned;
                 &guard_owned
             }
         };''', 'the decrement reads the epoch before pinning (the defect repaired by 81cdafe)')
-mut('m11-threshold-2', ['C02', 'C12'], U, 'modu.le(node_epoch as _, curr_epoch as isize - 3)', 'modu.le(node_epoch as _, curr_epoch as isize - 2)', 'age threshold 2: equivalent under sequential consistency for C02 (the third epoch is slack); C12 sees it', expect='C12 only')
+mut('m11-threshold-2', ['C02', 'C12'], U, 'modu.le(node_epoch as _, curr_epoch as isize - 3)', 'modu.le(node_epoch as _, curr_epoch as isize - 2)', 'age threshold 2: C12 sees it in the quick tier; C02 needs the six-thread stalled dropper of the thorough tier (NOT equivalent under sequential consistency, contrary to the round-0 prediction)', expect='C12 (C02 thorough)')
 mut('m12-expired-2', ['C13', 'C02'], I, 'global_epoch.wrapping_sub(self.epoch) >= 3', 'global_epoch.wrapping_sub(self.epoch) >= 2', 'bags expire after two epochs: enough under sequential consistency', expect='survives (SC-equivalent)')
 mut('m13-link-stamp-not-merged', ['C02', 'C06'], U, 'modu.max(&[node_epoch as _, link_epoch as _, cnt_curr.epoch() as _]);', 'modu.max(&[node_epoch as _, cnt_curr.epoch() as _]);', 'the link stamp is left out of the merge', expect='unknown')
 # ---- C03
